@@ -78,25 +78,52 @@ def check_tables(ctx):
   for k in sorted(set(got) | set(CCT)):
     ctx.check(got.get(k) == CCT.get(k), "TAB-cct", f"_CHAR_DECODER_MAP[{k!r}]", t.rel, f"{k!r} -> {got.get(k)}",
               f"CCT {k!r} selects decoder {got.get(k)}; EBU Tech 3264 gives {CCT.get(k)}")
-  # JC -> text alignment (process_tti_block)
+  # JC -> text alignment (process_tti_block), read by finite evaluation over the justification code
+  from ..rules import fineval
   f = ix.func("ttconv.stl.datafile:DataFile.process_tti_block")
-  jc = {}
-  for n in own_nodes(f.node):
-    if isinstance(n, ast.If) and isinstance(n.test, ast.Compare) and unparse(n.test.left).endswith(".JC") and isinstance(n.test.ops[0], ast.Eq):
-      val = ce.try_ev(f.module, n.test.comparators[0])
-      for c in own_nodes(n):
-        pass
-      call = n.body[0].value if isinstance(n.body[0], ast.Expr) else None
-      if call is not None and "TextAlign" in unparse(call):
-        jc[val] = unparse(call.args[1]).split(".")[-1]
-      if n.orelse and not isinstance(n.orelse[0], ast.If):
-        call = n.orelse[0].value if isinstance(n.orelse[0], ast.Expr) else None
-        if call is not None:
-          jc["else"] = unparse(call.args[1]).split(".")[-1]
-  want = {0x01: "start", 0x03: "end", "else": "center"}
-  for k in want:
-    ctx.check(jc.get(k) == want[k], "TAB-jc", f"process_tti_block|JC {k}", ctx.where(f.module, f.node), f"JC {k} -> {jc.get(k)}",
-              f"justification code {k} maps to textAlign {jc.get(k)}; expected {want[k]} (01h left, 02h centred, 03h right, 00h unchanged)")
+  sites = [c for c in own_nodes(f.node) if isinstance(c, ast.Call) and isinstance(c.func, ast.Attribute) and c.func.attr == "set_style" and c.args and unparse(c.args[0]).endswith("StyleProperties.TextAlign")]
+  if not sites:
+    raise AnalysisError("process_tti_block: no set_style(StyleProperties.TextAlign, ...) call found")
+  recv = unparse(sites[0].func.value)
+  jcs = {unparse(n) for c in [f.node] for n in own_nodes(c) if isinstance(n, ast.Attribute) and n.attr == "JC" and isinstance(n.value, ast.Name)}
+  if len(jcs) != 1:
+    raise AnalysisError(f"process_tti_block: the justification code is read as {sorted(jcs)}")
+  jcpath = jcs.pop()
+  # the smallest statement list that contains every TextAlign site
+  from ..core import parent as _par
+  def top_stmt(n):
+    cur = n
+    while _par(cur) is not f.node:
+      cur = _par(cur)
+    return cur
+  def block_of(n):
+    cur = n
+    while not isinstance(cur, ast.stmt):
+      cur = _par(cur)
+    # climb while the parent is an if whose test reads the justification code
+    while isinstance(_par(cur), ast.If) and jcpath in unparse(_par(cur).test):
+      cur = _par(cur)
+    return cur
+  blocks = []
+  for c in sites:
+    blk = block_of(c)
+    if not any(blk is x for x in blocks):
+      blocks.append(blk)
+  want = {0x00: "center", 0x01: "start", 0x02: "center", 0x03: "end"}
+  label = {0x01: "JC 1", 0x03: "JC 3"}
+  got = {}
+  for v in want:
+    eff = fineval.collect(ix, f, blocks, {jcpath: v}, recv)
+    al = [a[1] for n_, a, _ in eff.calls if n_ == "set_style" and len(a) == 2 and "TextAlign" in str(a[0])]
+    got[v] = [str(x).split(".")[-1].split(":")[0] if x is not None else None for x in al]
+  def name_of(lst):
+    return lst[0] if len(lst) == 1 else lst
+  for k, lab in ((0x01, "JC 1"), (0x03, "JC 3")):
+    ctx.check(len(got[k]) == 1 and want[k] in got[k][0], "TAB-jc", f"process_tti_block|{lab}", ctx.where(f.module, sites[0]), f"{lab} -> {name_of(got[k])}",
+              f"justification code {k} maps to textAlign {name_of(got[k])}; expected {want[k]} (01h left, 02h centred, 03h right, 00h unchanged)")
+  ok_else = all(len(got[k]) == 1 and "center" in got[k][0] for k in (0x00, 0x02))
+  ctx.check(ok_else, "TAB-jc", "process_tti_block|JC else", ctx.where(f.module, sites[0]), f"JC 0, 2 -> {name_of(got[0])}, {name_of(got[2])}",
+            f"justification codes 0 and 2 map to textAlign {name_of(got[0])} / {name_of(got[2])}; expected center (01h left, 02h centred, 03h right, 00h unchanged)")
   # struct formats
   for q, ntname, size in (("ttconv.stl.datafile:DataFile.__init__", "_GSIBlock", 1024), ("ttconv.stl.datafile:DataFile.process_tti_block", "_TTIBlock", 128)):
     g = ix.func(q)
@@ -194,33 +221,42 @@ def check_classifiers(ctx):
                ("_is_unused_space_code", "_is_character_code"), ("_is_unused_space_code", "_is_control_code"), ("_is_unused_space_code", "_is_newline_code")):
     inter = sets[a] & sets[b]
     ctx.check(not inter, "FIN-tf", f"{a}/{b}|disjoint", w, "disjoint", f"{a} and {b} both accept {[hex(c) for c in sorted(inter)[:6]]}: the class of such a byte depends on branch order")
-  # control-code branches in to_model
+  # control-code dispatch in to_model, read by finite evaluation (if/elif chain or lookup tables alike)
+  from ..rules import fineval
   f = ix.func("ttconv.stl.tf:to_model")
   ce = ConstEval(ix)
-  branches = {}
-  for n in own_nodes(f.node):
-    if isinstance(n, ast.If) and isinstance(n.test, ast.Compare) and unparse(n.test.left) == "c" and isinstance(n.test.ops[0], ast.Eq) and n.body and isinstance(n.body[0], ast.Expr):
-      v = ce.try_ev(m, n.test.comparators[0])
-      branches[v] = n.body[0].value
+  ctl = [n for n in own_nodes(f.node) if isinstance(n, ast.If) and isinstance(n.test, ast.Call) and unparse(n.test.func) == "_is_control_code" and len(n.test.args) == 1 and isinstance(n.test.args[0], ast.Name)]
+  if len(ctl) != 1:
+    raise AnalysisError(f"to_model: the `_is_control_code(<byte>)` branch was not found ({len(ctl)})")
+  var = ctl[0].test.args[0].id
+  recvs = [unparse(c.func.value) for st in ctl[0].body for c in ast.walk(st) if isinstance(c, ast.Call) and isinstance(c.func, ast.Attribute) and c.func.attr in ("set_fg_color", "set_bg_color", "set_italic", "set_underline")]
+  if not recvs:
+    raise AnalysisError("to_model: no style setter is called in the control-code branch")
+  recv = max(set(recvs), key=recvs.count)
+
+  def named(colour):
+    return ce.try_ev(m, ast.parse(f"styles.NamedColors.{colour}.value", mode="eval").body)
   for c in sorted(ctrl):
     key = f"to_model|control code 0x{c:02X}"
-    if c in branches:
-      call = branches[c]
-      txt = unparse(call)
-      if c in FG:
-        ok = "set_fg_color" in txt and txt.endswith(f"NamedColors.{FG[c]}.value)")
-        ctx.check(ok, "TAB-tf-codes", key, ctx.where(m, call), f"foreground {FG[c]}", f"control code 0x{c:02X} must select foreground {FG[c]}; found `{short(call)}`")
-      elif c in STYLE_CODES:
-        meth, val = STYLE_CODES[c]
-        ctx.check(f"{meth}({val})" in txt, "TAB-tf-codes", key, ctx.where(m, call), f"{meth}({val})", f"control code 0x{c:02X} must call {meth}({val}); found `{short(call)}`")
-      elif c in BG_CODES:
-        ctx.check("set_bg_color" in txt and f"NamedColors.{BG_CODES[c]}.value" in txt, "TAB-tf-codes", key, ctx.where(m, call), f"background {BG_CODES[c]}",
-                  f"control code 0x{c:02X} must select background {BG_CODES[c]}; found `{short(call)}`")
-      elif c == 0x1D:
-        ctx.check("set_bg_color" in txt and "get_fg_color()" in txt, "TAB-tf-codes", key, ctx.where(m, call), "new background = current foreground",
-                  f"control code 0x1D (new background) must copy the foreground colour; found `{short(call)}`")
-      else:
-        ctx.ok("TAB-tf-codes", key, ctx.where(m, call), "has a branch")
+    eff = fineval.collect(ix, f, ctl[0].body, {var: c}, recv)
+    setters = [(name, args, node) for name, args, node in eff.calls if name in ("set_fg_color", "set_bg_color", "set_italic", "set_underline")]
+    where = ctx.where(m, setters[0][2]) if setters else ctx.where(m, ctl[0])
+    found = ", ".join(f"{n}({', '.join(str(a) for a in args)})" for n, args, _ in setters) or "no style setter"
+    if c in FG:
+      ok = len(setters) == 1 and setters[0][0] == "set_fg_color" and setters[0][1] == [named(FG[c])]
+      ctx.check(ok, "TAB-tf-codes", key, where, f"foreground {FG[c]}", f"control code 0x{c:02X} must select foreground {FG[c]}; found {found}")
+    elif c in STYLE_CODES:
+      meth, val = STYLE_CODES[c]
+      ok = len(setters) == 1 and setters[0][0] == meth and setters[0][1] == [val]
+      ctx.check(ok, "TAB-tf-codes", key, where, f"{meth}({val})", f"control code 0x{c:02X} must call {meth}({val}); found {found}")
+    elif c in BG_CODES:
+      ok = len(setters) == 1 and setters[0][0] == "set_bg_color" and setters[0][1] == [named(BG_CODES[c])]
+      ctx.check(ok, "TAB-tf-codes", key, where, f"background {BG_CODES[c]}", f"control code 0x{c:02X} must select background {BG_CODES[c]}; found {found}")
+    elif c == 0x1D:
+      ok = len(setters) == 1 and setters[0][0] == "set_bg_color" and len(setters[0][2].args) == 1 and unparse(setters[0][2].args[0]) == f"{recv}.get_fg_color()"
+      ctx.check(ok, "TAB-tf-codes", key, where, "new background = current foreground", f"control code 0x1D (new background) must copy the foreground colour; found {found}")
+    elif setters:
+      ctx.ok("TAB-tf-codes", key, where, f"has a branch: {found}")
     else:
       ctx.check(c in CONTROL_NO_BRANCH, "TAB-tf-codes", key, ctx.where(m, f.node), "tabled: " + CONTROL_NO_BRANCH.get(c, ""),
                 f"control code 0x{c:02X} is accepted by _is_control_code but to_model has neither a branch nor a tabled reason for ignoring it")
